@@ -236,7 +236,7 @@ def gen_response(tape, method='GET', allow_truncate=False, allow_surplus=True, a
     if framing == 'length':
         fields.append(('Content-Length', str(len(coded))))
     elif framing == 'chunked':
-        tev = tape.choice(('chunked', 'Chunked', 'chunked', 'CHUNKED', 'chunked ;x=1', 'chunked; q=1'), 'te.case')      # transfer-extension: token *( OWS ";" OWS parameter )
+        tev = tape.choice(('chunked', 'Chunked', 'chunked', 'CHUNKED', 'chunked ;x=1', 'chunked; q=1', 'chunked,', ', chunked', 'chunked , '), 'te.case')      # transfer-extension: token *( OWS ";" OWS parameter )
         fields.append(('Transfer-Encoding', tev))
         if tape.chance(1, 6, 'cl.and.te'):
             # RFC 7230 3.3.3 rule 3: Transfer-Encoding overrides Content-Length
